@@ -2,6 +2,7 @@
     Property theorems only; every proof is [exact] of a lemma of Proofs/. *)
 From Coq Require Import ZArith List Bool.
 From PV Require Import Model.Base Model.Sched Model.Chan Model.Seq Model.SeqSnap.
+From PV Require Gen.Pure Model.Chan Proofs.PureEq.
 From PV Require Import Proofs.SchedInv Proofs.SchedOps Proofs.SeqInv Proofs.DurationSpec Proofs.AlignWitness.
 Import ListNotations.
 Open Scope Z_scope.
@@ -88,3 +89,25 @@ Theorem C02_reachable_state_example :
   map (fun c => length (ch_slots c)) (q_sched (run wenv wops)) = [2%nat; 2%nat].
 Proof. exact reachable_state_example. Qed.
 Print Assumptions C02_reachable_state_example.
+
+(** Tie to the source by translation: the duration rules all the theorems
+    above are stated over are EQUAL to the functions regenerated from the
+    current source (Channel.validate_duration, _ChannelSchedule.adjust_duration,
+    _Schedule._check_duration) by translate/tr_pure.py. *)
+Theorem C02_source_validate_duration :
+  forall (c : ccfg) (d : Z),
+    Gen.Pure.gen_validate_duration (c_min c) (c_max c) (c_clock c) d = validate_duration c d.
+Proof. exact PureEq.validate_duration_eq. Qed.
+Print Assumptions C02_source_validate_duration.
+
+Theorem C02_source_adjust_duration :
+  forall (c : ccfg) (d : Z),
+    Gen.Pure.gen_adjust_duration (c_min c) (c_max c) (c_clock c) d = adjust_duration c d.
+Proof. exact PureEq.adjust_duration_eq. Qed.
+Print Assumptions C02_source_adjust_duration.
+
+Theorem C02_source_check_duration :
+  forall (e : env) (t : Z) (block : bool),
+    Gen.Pure.gen_check_duration (en_max e) t block = check_duration e t block.
+Proof. exact PureEq.check_duration_eq. Qed.
+Print Assumptions C02_source_check_duration.
